@@ -9,6 +9,12 @@ type nat =
 | O
 | S of nat
 
+(** val option_map : ('a1 -> 'a2) -> 'a1 option -> 'a2 option **)
+
+let option_map f = function
+| Some a -> Some (f a)
+| None -> None
+
 (** val fst : ('a1 * 'a2) -> 'a1 **)
 
 let fst = function
@@ -744,6 +750,18 @@ module Z =
        | Zpos y' -> Zneg (Coq_Pos.mul x' y')
        | Zneg y' -> Zpos (Coq_Pos.mul x' y'))
 
+  (** val pow_pos : z -> positive -> z **)
+
+  let pow_pos z0 =
+    Coq_Pos.iter (mul z0) (Zpos XH)
+
+  (** val pow : z -> z -> z **)
+
+  let pow x = function
+  | Z0 -> Zpos XH
+  | Zpos p -> pow_pos x p
+  | Zneg _ -> Z0
+
   (** val compare : z -> z -> comparison **)
 
   let compare x y =
@@ -1043,6 +1061,20 @@ let uidx l i =
 let rec countN c = function
 | [] -> N0
 | x :: l' -> N.add (if N.eqb x c then Npos XH else N0) (countN c l')
+
+(** val chunks_aux : nat -> 'a1 list -> nat -> 'a1 list list **)
+
+let rec chunks_aux k l = function
+| O -> []
+| S f ->
+  (match l with
+   | [] -> []
+   | _ :: _ -> (firstn k l) :: (chunks_aux k (skipn k l) f))
+
+(** val chunks : nat -> 'a1 list -> 'a1 list list **)
+
+let chunks k l =
+  chunks_aux k l (length l)
 
 (** val last_opt : 'a1 list -> 'a1 option **)
 
@@ -7462,3 +7494,132 @@ let text_remap uniq input =
          d))
      | None -> Fault Panic)
   in go input
+
+(** val vseq_u : n list -> value **)
+
+let vseq_u l =
+  VSeq (map (fun x -> VU x) l)
+
+(** val qline_value : n list -> value **)
+
+let qline_value l =
+  VTuple ((VSeq (map (fun x -> VU x) (pack_qline l))) :: [])
+
+(** val qv_value : qvec -> value **)
+
+let qv_value q =
+  VTuple ((VSeq (map qline_value q.qv_data)) :: ((VU q.qv_position) :: []))
+
+(** val rss_value : rssupport -> value **)
+
+let rss_value r =
+  VTuple ((VSeq
+    (map (fun sb -> VTuple ((vseq_u sb) :: [])) r.rs_superblocks)) :: ((VSeq
+    (map vseq_u r.rs_samples)) :: []))
+
+(** val rsq_value : rsq -> value **)
+
+let rsq_value r =
+  VTuple
+    ((qv_value r.rsq_qv) :: ((rss_value r.rsq_rs) :: ((vseq_u
+                                                        r.rsq_occs_smaller) :: [])))
+
+(** val bv_value : bitvec -> value **)
+
+let bv_value b =
+  VTuple ((VSeq
+    (map (fun l -> VTuple ((vseq_u l) :: []))
+      (chunks (S (S (S (S (S (S (S (S O)))))))) b.bv_words))) :: ((VU
+    b.bv_nbits) :: ((VU b.bv_nones) :: [])))
+
+(** val rsn_value : rsnarrow -> value **)
+
+let rsn_value r =
+  VTuple ((bv_value r.rsn_bv) :: ((vseq_u r.rsn_pairs) :: ((VSeq
+    ((vseq_u r.rsn_samples0) :: ((vseq_u r.rsn_samples1) :: []))) :: [])))
+
+(** val rsw_value : rswide -> value **)
+
+let rsw_value r =
+  VTuple ((bv_value r.rsw_bv) :: ((vseq_u r.rsw_meta) :: ((VSeq
+    ((vseq_u r.rsw_samples0) :: ((vseq_u r.rsw_samples1) :: []))) :: ((VU
+    r.rsw_n_zeros) :: []))))
+
+(** val i64_bits : z -> n **)
+
+let i64_bits z0 =
+  Z.to_N
+    (Z.modulo z0
+      (Z.pow (Zpos (XO XH)) (Zpos (XO (XO (XO (XO (XO (XO XH)))))))))
+
+(** val inv_value : inventories -> value **)
+
+let inv_value i =
+  VTuple ((VU
+    i.inv_n_sets) :: ((vseq_u (map i64_bits i.inv_block)) :: ((vseq_u
+                                                                i.inv_sub) :: (
+    (vseq_u i.inv_overflow) :: []))))
+
+(** val da_value : darray -> value **)
+
+let da_value d =
+  VTuple ((bv_value d.da_bv) :: ((inv_value d.da_ones) :: ((VOpt
+    (option_map inv_value d.da_zeros)) :: [])))
+
+(** val pfs_value : pfsupport -> value **)
+
+let pfs_value p =
+  VTuple ((VSeq (map rsn_value p.pf_samples)) :: ((VU p.pf_shift) :: []))
+
+(** val qwt_value : qwt -> pfsupport list option -> value **)
+
+let qwt_value t pfs =
+  VTuple ((VU t.q_n) :: ((VU t.q_n_levels) :: ((VU t.q_sigma) :: ((VSeq
+    (map rsq_value t.q_qvs)) :: ((VOpt
+    (option_map (fun ps -> VSeq (map pfs_value ps)) pfs)) :: [])))))
+
+(** val code_value : pcode -> value **)
+
+let code_value c =
+  VTuple ((VU c.pc_content) :: ((VU c.pc_len) :: []))
+
+(** val decode_value : (n * n) list list -> value **)
+
+let decode_value d =
+  VSeq
+    (map (fun tab -> VSeq
+      (map (fun p -> VTuple ((VU (fst p)) :: ((VU (snd p)) :: []))) tab)) d)
+
+(** val hq_value : hqwt -> pfsupport list option -> value **)
+
+let hq_value t pfs =
+  VTuple ((VU t.h_n) :: ((VU t.h_n_levels) :: ((VSeq
+    (map code_value t.h_codes)) :: ((decode_value t.h_decode) :: ((VSeq
+    (map rsq_value t.h_qvs)) :: ((vseq_u t.h_lens) :: (VUnit :: ((VOpt
+    (option_map (fun ps -> VSeq (map pfs_value ps)) pfs)) :: []))))))))
+
+(** val wt_value : bwt -> value **)
+
+let wt_value t =
+  VTuple ((VU t.w_n) :: ((VU t.w_n_levels) :: ((VOpt
+    (option_map (fun x -> VU x) t.w_sigma)) :: ((VOpt
+    (option_map (fun cs -> VSeq (map code_value cs)) t.w_codes)) :: ((VOpt
+    (option_map decode_value t.w_decode)) :: ((VSeq
+    (map rsw_value t.w_bvs)) :: ((vseq_u t.w_lens) :: (VUnit :: []))))))))
+
+(** val hq_default : hqwt **)
+
+let hq_default =
+  { h_n = N0; h_n_levels = N0; h_codes = []; h_decode = []; h_qvs = [];
+    h_lens = [] }
+
+(** val rsn_default : rsnarrow **)
+
+let rsn_default =
+  { rsn_bv = bv_empty; rsn_pairs = []; rsn_samples0 = []; rsn_samples1 = [] }
+
+(** val rsw_default : rswide **)
+
+let rsw_default =
+  { rsw_bv = bv_empty; rsw_meta = []; rsw_samples0 = []; rsw_samples1 = [];
+    rsw_n_zeros = N0 }
